@@ -456,7 +456,11 @@ class AbstractInversion:
                 mapper_zero_pixel_list.append(
                     np.where(source_pixels_zero == True)[0] + param_range[0]
                 )
-        return mapper_zero_pixel_list
+
+        if len(mapper_zero_pixel_list) == 0:
+            return np.zeros(0, dtype="int")
+
+        return np.concatenate(mapper_zero_pixel_list).astype("int")
 
     @cached_property
     @profile_func
@@ -492,7 +496,7 @@ class AbstractInversion:
                         np.append(
                             self.mapper_edge_pixel_list, self.mapper_zero_pixel_list
                         )
-                    )
+                    ).astype("int")
                 else:
                     ids_zeros = self.mapper_edge_pixel_list
 
